@@ -27,12 +27,15 @@ inductive Err where
   | indexError
   /-- exact `x / 0` -/
   | zeroDivisionError
+  /-- `set.union(*(… for ratex in r_exprs))` with no reaction at all (ode.py:187): "unbound method set.union() needs an argument" -/
+  | typeError
   deriving DecidableEq, Repr
 
 def Err.name : Err → String
   | .valueError => "ValueError"
   | .indexError => "IndexError"
   | .zeroDivisionError => "ZeroDivisionError"
+  | .typeError => "TypeError"
 
 section Step
 variable {α : Type} [NatCast α] [Sub α] [Div α] [Neg α] [LT α] [DecidableLT α] [DecidableEq α]
@@ -137,8 +140,11 @@ def liftErr : EqSolve.Err → Err
 
 /-- `extra['max_euler_step_cb'](x, y)` (ode.py:408-421) for a system whose substances (in order `keys`) have the
     compositions `comps`: `upper_bounds = rsys.upper_conc_bounds(_y)` — the bounds are those of the CURRENT state —,
-    `fvec = odesys.f_cb(_x[0], _y, _p)`, then the loop.  `to_arrays` has already rejected a `y` of the wrong length. -/
+    `fvec = odesys.f_cb(_x[0], _y, _p)`, then the loop.  `to_arrays` has already rejected a `y` of the wrong length.
+    A system without reactions never gets that far: `get_odesys` raises `TypeError`. -/
 def maxEulerStepCb (keys : List σ) (comps : List (EqSolve.Comp α)) (rs : List (Reaction σ α)) (y : List α) : Except Err α :=
+  if rs.isEmpty then .error .typeError        -- `get_odesys` itself fails for a system without reactions
+  else
   match EqSolve.upperConcBounds comps y with
   | .error e => .error (liftErr e)
   | .ok ub =>
